@@ -44,6 +44,16 @@ CHECKS = {
          "Every grid of 3-4 points from a 6-point alphabet, T in {5,6,7}, cycles {1,2,3,5}, anomalies flag on/off: all 125 windows (bounds on samples, between, outside, equal bounds) in sequence and every window history up to the depth bound, with observable(), grid sequences/sizes, window(), phase_mean(), anomaly(), phase_indices(), anomaly_selected_months() compared after every step with a closed-interval selection on the float32-stored coordinates and Fraction phase arithmetic; zero phase mean and add-back identities on the library output.",
          "Windows that select nothing (the library raises) and the one-degenerate-spatial-axis convention are counted, not judged.",
          "7/C13"),
+ "C15": ("model_checking",
+         "choice-sequence DFS with deviation bound over every answer the random sources can give (permutations, phase vectors, normal draws, twin-walk draws) x histories of 1-3 generator calls on one object, on the real Surrogates / RecurrencePlot code vs exact oracles",
+         "The random sources of surrogates.py and of the twin-walk kernels are replaced by choice points (option 0 = the seeded default); all executions with <= 1 deviation (2 on the smallest data and the twin sweep) are run for all rows of length 4-5 over {0,1,3}, structured 2-row arrays and fixed arrays of length 8-16, for every generator called three times on the same object and every ordered pair of generators; shuffle/AAFT outputs must be exact row permutations, Fourier-type outputs must keep the amplitude spectrum (explicit DFT), twins must equal the oracle's twin sets, and every twin-surrogate step must be a legal transition (NFA); one recorded sequence per case is replayed twice as a seam self-test.",
+         "Deviation bound 1-2; N=2 arrays are a structured subset; thresholds exactly at a state distance excluded. Trusted: numpy FFT only inside the library (the oracle uses an explicit DFT).",
+         "7/C15"),
+ "C17": ("model_checking",
+         "choice-sequence DFS with iterative-deepening deviation bound over every index/real the random sources can return, on the real rewiring kernels and model generators, with invariants checked on every completed execution",
+         "The draws of the own kernels (numpy.random.random, the extension-module randint), of numpy in the Python generators and of igraph's RNG are choice points with menus covering every index; all executions up to deviation bound 2 (3 thorough, 4 for the geomodel kernel) under an explicit draw horizon are run on iso(5) plus connected 6-node graphs, all bipartitions, 3 point sets, tolerances {0,0.5,100}, 1-3 iterations; every execution must return a simple graph with unchanged N and degrees, link-length classes within tolerance (II/III also per node / degree pairs), untouched internal blocks and cross degrees, exact prescribed link counts, degrees <= requested.",
+         "Inputs on which no admissible swap exists (every execution hits the horizon; confirmed by a reference admissibility model) are excluded and counted; igraph internals trusted.",
+         "7/C17"),
  "C16": ("exploration",
          "exhaustive enumeration of all ordered pairs of binary sequences of length <=6 (<=8 thorough) x taumax x lag x timestamps, all 5x3 event matrices x symmetrisations, all (4,2) data arrays for thresholding, on the real EventSeries vs Fraction counting rules",
          "Every ordered pair of 0/1 sequences up to the length bound with taumax in {1,2,inf}, lag in {0,1} and two timestamp sets is passed to event_synchronization and event_coincidence_analysis and compared with a Fraction transcription of the published counting rules; ranges, exchange symmetry, time-shift and (taumax=inf) time-scaling invariance; all 32768 5x3 event matrices (and 7x2) for the matrix analysis under all symmetrisation options; make_event_matrix on all (4,2) arrays over {0,1,2} for every method/type/quantile.",
